@@ -23,7 +23,7 @@ CHECKS = {
         level='model_checking',
         technique='symbolic execution of the real PowerPC matcher/decoder/encoder on one symbolic 32-bit word; per-path SMT (z3)',
         text='The whole 32-bit word is a single symbolic integer. Every path of the real class matcher, field parser and '
-             're-encoder is explored (thorough: all 64 primary opcodes = all 2^32 words; quick: 20 opcodes incl. the dense ones); '
+             're-encoder is explored (all 64 primary opcodes = all 2^32 words, in both tiers); '
              'on each path the solver proves: at most one class claims the word, and bin() == word for every word of the path. '
              'Mnemonic-vs-architecture and the render/assemble text fixpoint are decided at witnesses only (path witness vs llvm-mc; '
              'smallest and largest word of each path through str()/asm()) and are labelled so.',
